@@ -1520,7 +1520,7 @@ func (env *SpecEnv) lockKey(e ast.Expr) (string, error) {
 	st := pt.Elem().Underlying().(*types.Struct)
 	for i := 0; i < st.NumFields(); i++ {
 		if st.Field(i).Name() == sel.Sel.Name {
-			return fieldHeapName(pt.Elem(), i) + "@" + x.t.s, nil
+			return fieldHeapName(pt.Elem(), i) + "@" + env.ex.canonTerm(x.t.s), nil
 		}
 	}
 	return "", fmt.Errorf("held: no field %s", sel.Sel.Name)
